@@ -64,31 +64,47 @@ type Term struct {
 	key  string
 }
 
-var (
-	termTab  = map[string]*Term{}
-	termNext = 1
-)
+var termNext = 1
+
+type termKey struct {
+	op      Op
+	w       int
+	val     uint64
+	name    string
+	a, b    int
+	n       int
+	x, y, z int
+}
+
+var termTab2 = map[termKey]*Term{}
 
 func intern(t *Term) *Term {
-	var sb strings.Builder
-	fmt.Fprintf(&sb, "%d:%d:%d:%s:%d:%d", t.Op, t.W, t.Val, t.Name, t.A, t.B)
-	for _, a := range t.Args {
-		fmt.Fprintf(&sb, ",%d", a.id)
+	k := termKey{op: t.Op, w: t.W, val: t.Val, name: t.Name, a: t.A, b: t.B, n: len(t.Args)}
+	switch len(t.Args) {
+	case 3:
+		k.z = t.Args[2].id
+		fallthrough
+	case 2:
+		k.y = t.Args[1].id
+		fallthrough
+	case 1:
+		k.x = t.Args[0].id
+	case 0:
+	default:
+		panic(engineError("intern: arity"))
 	}
-	k := sb.String()
-	if o, ok := termTab[k]; ok {
+	if o, ok := termTab2[k]; ok {
 		return o
 	}
 	t.id = termNext
 	termNext++
-	t.key = k
-	termTab[k] = t
+	termTab2[k] = t
 	return t
 }
 
 // resetTerms drops the intern table (between configurations) to bound memory.
 func resetTerms() {
-	termTab = map[string]*Term{}
+	termTab2 = map[termKey]*Term{}
 }
 
 func mask(w int) uint64 {
